@@ -4,7 +4,8 @@ selftest/results/seeded.txt (output of `selftest/mutants_all.sh seeded`)."""
 import json, os, re, collections
 ROOT = os.path.dirname(os.path.dirname(os.path.abspath(__file__)))
 res = collections.defaultdict(dict)
-for line in open(f"{ROOT}/selftest/results/seeded.txt"):
+sp = f"{ROOT}/selftest/results/seeded.txt"
+for line in (open(sp) if os.path.exists(sp) else []):
     m = re.match(r"^(C\d\d-\d+) (C\d\d) (DETECTED|missed|harness-error)\s*(.*)$", line.rstrip("\n"))
     if m:
         res[m.group(1)][m.group(2)] = (m.group(3), m.group(4).strip())
@@ -24,11 +25,13 @@ for sid, r in sorted(res.items()):
     print(sid, t, "DETECTED" if t in meta["detected_by"] else "MISSED", ",".join(meta["detected_by"]))
 
 # ---- final target-only sweep: selftest/results/seeded_target.txt
-tp = f"{ROOT}/selftest/results/seeded_target.txt"
-if os.path.exists(tp):
-    import subprocess
+import glob, subprocess
+tlines = []
+for tp in sorted(glob.glob(f"{ROOT}/selftest/results/seeded_target*.txt"), key=os.path.getmtime):
+    tlines += list(open(tp))   # later files override earlier ones
+if tlines:
     head = subprocess.check_output(["git", "-C", ROOT, "rev-parse", "--short", "HEAD"], text=True).strip()
-    for line in open(tp):
+    for line in tlines:
         m = re.match(r"^(C\d\d-\d+) (C\d\d) (DETECTED|missed|harness-error)\s*(.*)$", line.rstrip("\n"))
         if not m:
             continue
